@@ -3,11 +3,946 @@ From Verif Require Import Base.GoInt Generated.AsmAsciiGen Ascii.AsmTotal Genera
 From Coq Require Import ZifyBool.
 Open Scope Z_scope.
 
+(* ================= err_sticky ================= *)
 Lemma err_sticky : err_sticky_statement.
-Admitted.
+Proof. intros pfuel d st H. unfold t_next. rewrite H. reflexivity. Qed.
+
+(* ================= small facts ================= *)
+Local Tactic Notation "zdeep" ident(c) :=
+  destruct c as [|c|c];
+  [ | do 7 (try (destruct c as [c|c|])) | ].
+
+Lemma wfb_app' a b : wfb (a ++ b) = true -> wfb a = true /\ wfb b = true.
+Proof. unfold wfb. rewrite forallb_app. intros H. apply andb_true_iff in H. exact H. Qed.
+Lemma bytes_eqb_refl a : bytes_eqb a a = true.
+Proof. induction a as [|x a IH]; [reflexivity|]. cbn [bytes_eqb]. rewrite Z.eqb_refl. exact IH. Qed.
+Lemma slice_mid (p v t : bytes) :
+  slice (p ++ v ++ t) (len (p ++ v ++ t) - len t - len v) (len (p ++ v ++ t) - len t) = v.
+Proof.
+  rewrite !len_app. unfold slice.
+  replace (len p + (len v + len t) - len t - (len p + (len v + len t) - len t - len v)) with (len v) by lia.
+  replace (len p + (len v + len t) - len t - len v) with (len p) by lia.
+  unfold len. rewrite !Nat2Z.id. rewrite skipn_app, skipn_all, Nat.sub_diag. cbn [skipn app].
+  rewrite firstn_app, firstn_all, Nat.sub_diag. cbn [firstn]. apply app_nil_r.
+Qed.
+
+(* ================= t_next in two phases: the scan of one lexeme, then the delimiter state machine ================= *)
+Definition sc_state (st : tstate) (r : option (bytes * bytes * Z * option json_err)) : option (tstate * Z) :=
+  match r with
+  | None => None
+  | Some (v, rest, k, e) =>
+      Some ({| t_delim := 0; t_value := v; t_err := negb (isnil e); t_depth := t_depth st; t_index := t_index st;
+               t_iskey := t_iskey st; t_iskey_next := t_iskey_next st; t_json := rest; t_stack := t_stack st; t_kind := t_kind st |}, k)
+  end.
+Definition is_delim (c : Z) : bool := (c =? 123) || (c =? 125) || (c =? 91) || (c =? 93) || (c =? 58) || (c =? 44).
+Definition t_scan (pfuel : nat) (d : Z) (st : tstate) (c : Z) (j : bytes) : option (tstate * Z) :=
+  if c =? 34 then sc_state st (json_decoder_parseString pfuel d j)
+  else if c =? 110 then sc_state st (Some (json_decoder_parseNull d j))
+  else if c =? 116 then sc_state st (Some (json_decoder_parseTrue d j))
+  else if c =? 102 then sc_state st (Some (json_decoder_parseFalse d j))
+  else if (c =? 45) || ((48 <=? c) && (c <=? 57)) then sc_state st (json_decoder_parseNumber pfuel d j)
+  else if is_delim c then
+    Some ({| t_delim := c; t_value := [c]; t_err := false; t_depth := t_depth st; t_index := t_index st;
+             t_iskey := t_iskey st; t_iskey_next := t_iskey_next st; t_json := slice_from j 1; t_stack := t_stack st; t_kind := t_kind st |},
+          if c =? 123 then json_Object else if c =? 91 then json_Array else 0)
+  else
+    Some ({| t_delim := 0; t_value := [c]; t_err := true; t_depth := t_depth st; t_index := t_index st;
+             t_iskey := t_iskey st; t_iskey_next := t_iskey_next st; t_json := slice_from j 1; t_stack := t_stack st; t_kind := t_kind st |}, 0).
+Definition t_mach (s1 : tstate) (kind : Z) : option (bool * tstate) :=
+  let depth := stack_depth (t_stack s1) in
+  let index := stack_index (t_stack s1) in
+  let upd (delim : Z) (iskey iskn : bool) (stack : list (Z * Z)) (err : bool) (depth index : Z) : tstate :=
+    {| t_delim := delim; t_value := t_value s1; t_err := err; t_depth := depth; t_index := index; t_iskey := iskey;
+       t_iskey_next := iskn; t_json := t_json s1; t_stack := stack; t_kind := kind |} in
+  let s2 : tstate * bool :=
+    if t_delim s1 =? 0 then (upd 0 (t_iskey_next s1) (t_iskey_next s1) (t_stack s1) (t_err s1) depth index, false)
+    else
+      let dl := t_delim s1 in
+      if dl =? 123 then (upd dl false true (t_stack s1 ++ [(1, 1)]) (t_err s1) depth index, false)
+      else if dl =? 91 then (upd dl false (t_iskey_next s1) (t_stack s1 ++ [(0, 1)]) (t_err s1) depth index, false)
+      else if dl =? 125 then
+        match stack_pop (t_stack s1) 1 with
+        | Some stk => (upd dl false false stk false (depth - 1) (stack_index stk), false)
+        | None => (upd dl false false (t_stack s1) true (depth - 1) (stack_index (t_stack s1)), false)
+        end
+      else if dl =? 93 then
+        match stack_pop (t_stack s1) 0 with
+        | Some stk => (upd dl false (t_iskey_next s1) stk false (depth - 1) (stack_index stk), false)
+        | None => (upd dl false (t_iskey_next s1) (t_stack s1) true (depth - 1) (stack_index (t_stack s1)), false)
+        end
+      else if dl =? 58 then (upd dl false false (t_stack s1) (t_err s1) depth index, false)
+      else
+        if len (t_stack s1) =? 0 then (upd dl false (t_iskey_next s1) (t_stack s1) true depth index, true)
+        else (upd dl false (if stack_top_is (t_stack s1) 1 then true else t_iskey_next s1) (stack_incr (t_stack s1)) (t_err s1) depth index, false) in
+  let '(s3, early) := s2 in
+  if early then Some (false, s3)
+  else Some ((negb (t_delim s3 =? 0) || negb (len (t_value s3) =? 0)) && negb (t_err s3), s3).
+Lemma t_next_eq pfuel d st : t_next pfuel d st =
+  if t_err st then Some (false, st) else
+  let j := json_skipSpaces (t_json st) in
+  match j with
+  | [] => Some (false, t_init [])
+  | c :: _ => match t_scan pfuel d st c j with None => None | Some (s1, kind) => t_mach s1 kind end
+  end.
+Proof. reflexivity. Qed.
+
+(* the state machine never fails, keeps the lexeme and the rest of the input, and a scalar is reported only without error *)
+Lemma mach_scalar s1 kind : t_delim s1 = 0 ->
+  t_mach s1 kind = Some (negb (len (t_value s1) =? 0) && negb (t_err s1),
+    {| t_delim := 0; t_value := t_value s1; t_err := t_err s1; t_depth := len (t_stack s1); t_index := stack_index (t_stack s1);
+       t_iskey := t_iskey_next s1; t_iskey_next := t_iskey_next s1; t_json := t_json s1; t_stack := t_stack s1; t_kind := kind |}).
+Proof. intros H. unfold t_mach. rewrite H. reflexivity. Qed.
+Lemma mach_gen s1 kind : exists r s3, t_mach s1 kind = Some (r, s3) /\ t_value s3 = t_value s1 /\ t_json s3 = t_json s1.
+Proof.
+  unfold t_mach. cbv zeta.
+  repeat match goal with
+  | |- context [match stack_pop ?a ?b with _ => _ end] => destruct (stack_pop a b)
+  | |- context [if ?c then _ else _] => destruct c
+  end; eexists; eexists; (split; [reflexivity|]); split; reflexivity.
+Qed.
+(* ================= the scan phase ================= *)
+Lemma sc_state_ok st j G res : ok_at j G res ->
+  exists s1 k, sc_state st res = Some (s1, k) /\ t_stack s1 = t_stack st /\ t_iskey_next s1 = t_iskey_next st /\
+    t_delim s1 = 0 /\ exists e, t_err s1 = negb (isnil e) /\ ok_at j G (Some (t_value s1, t_json s1, k, e)).
+Proof.
+  intros (v & r & k & e & E & H). subst res. cbn [sc_state]. eexists. eexists. split; [reflexivity|].
+  cbn [t_stack t_iskey_next t_delim t_err t_value t_json]. repeat (split; [reflexivity|]).
+  exists e. split; [reflexivity|]. exists v, r, k, e. split; [reflexivity|exact H].
+Qed.
+
+Lemma scan_gen pfuel d st c r f : wfb (c :: r) = true -> len (c :: r) < 2 ^ 62 -> flags_sound d (c :: r) ->
+  (length (c :: r) < pfuel)%nat ->
+  exists s1 k, t_scan pfuel d st c (c :: r) = Some (s1, k) /\ t_stack s1 = t_stack st /\ t_iskey_next s1 = t_iskey_next st /\
+   ((is_delim c = true /\ t_delim s1 = c /\ t_value s1 = [c] /\ t_json s1 = r /\ t_err s1 = false)
+    \/ (is_delim c = false /\ t_delim s1 = 0 /\
+        exists e, t_err s1 = negb (isnil e) /\ ok_at (c :: r) (g_value (S f) (c :: r)) (Some (t_value s1, t_json s1, k, e)))).
+Proof.
+  intros Hw Hl Hfs Hp. unfold t_scan.
+  assert (SC : forall res, is_delim c = false -> ok_at (c :: r) (g_value (S f) (c :: r)) res ->
+    exists s1 k, sc_state st res = Some (s1, k) /\ t_stack s1 = t_stack st /\ t_iskey_next s1 = t_iskey_next st /\
+   ((is_delim c = true /\ t_delim s1 = c /\ t_value s1 = [c] /\ t_json s1 = r /\ t_err s1 = false)
+    \/ (is_delim c = false /\ t_delim s1 = 0 /\
+        exists e, t_err s1 = negb (isnil e) /\ ok_at (c :: r) (g_value (S f) (c :: r)) (Some (t_value s1, t_json s1, k, e))))).
+  { intros res D H. destruct (sc_state_ok st _ _ _ H) as (s1 & k & E1 & E2 & E3 & E4 & E5).
+    exists s1, k. repeat (split; [assumption|]). right. auto. }
+  destruct (Z.eqb_spec c 34) as [C3|C3].
+  { subst c. apply SC; [reflexivity|]. rewrite g_value_string.
+    change (g_string r) with (g_str_tok (34 :: r)). apply parseString_spec; auto. lia. }
+  destruct (Z.eqb_spec c 110) as [C4|C4].
+  { subst c. apply SC; [reflexivity|]. rewrite g_value_null.
+    change (strip_prefix [117; 108; 108] r) with (strip_prefix [110; 117; 108; 108] (110 :: r)).
+    pose proof (lit_spec [110; 117; 108; 108] (110 :: r) json_Null ltac:(discriminate)) as L.
+    unfold json_decoder_parseNull, json_hasNullPrefix.
+    change (len [110; 117; 108; 108]) with 4 in L.
+    destruct ((len (110 :: r) >=? 4) && bytes_eqb (slice_to (110 :: r) 4) [110; 117; 108; 108]); [exact L|].
+    destruct (len (110 :: r) <? 4); exact L. }
+  destruct (Z.eqb_spec c 116) as [C5|C5].
+  { subst c. apply SC; [reflexivity|]. rewrite g_value_true.
+    change (strip_prefix [114; 117; 101] r) with (strip_prefix [116; 114; 117; 101] (116 :: r)).
+    pose proof (lit_spec [116; 114; 117; 101] (116 :: r) json_True ltac:(discriminate)) as L.
+    unfold json_decoder_parseTrue, json_hasTruePrefix.
+    change (len [116; 114; 117; 101]) with 4 in L.
+    destruct ((len (116 :: r) >=? 4) && bytes_eqb (slice_to (116 :: r) 4) [116; 114; 117; 101]); [exact L|].
+    destruct (len (116 :: r) <? 4); exact L. }
+  destruct (Z.eqb_spec c 102) as [C6|C6].
+  { subst c. apply SC; [reflexivity|]. rewrite g_value_false.
+    change (strip_prefix [97; 108; 115; 101] r) with (strip_prefix [102; 97; 108; 115; 101] (102 :: r)).
+    pose proof (lit_spec [102; 97; 108; 115; 101] (102 :: r) json_False ltac:(discriminate)) as L.
+    unfold json_decoder_parseFalse, json_hasFalsePrefix.
+    change (len [102; 97; 108; 115; 101]) with 5 in L.
+    destruct ((len (102 :: r) >=? 5) && bytes_eqb (slice_to (102 :: r) 5) [102; 97; 108; 115; 101]); [exact L|].
+    destruct (len (102 :: r) <? 5); exact L. }
+  clear Hw Hfs.
+  destruct ((c =? 45) || ((48 <=? c) && (c <=? 57))) eqn:T.
+  { apply SC; [unfold is_delim; lia|]. rewrite g_value_other by lia. apply parseNumber_spec; auto. }
+  destruct (is_delim c) eqn:D.
+  { eexists. eexists. split; [reflexivity|]. cbn [t_stack t_iskey_next t_delim t_err t_value t_json].
+    repeat (split; [reflexivity|]). left. repeat split. }
+  eexists. eexists. split; [reflexivity|]. cbn [t_stack t_iskey_next t_delim t_err t_value t_json].
+  repeat (split; [reflexivity|]). right. repeat (split; [reflexivity|]).
+  exists (Some JErrSyntax). split; [reflexivity|].
+  unfold is_delim in D. rewrite g_value_other by lia. rewrite g_number_bad; [apply ok_at_err|lia|unfold is_digit; lia].
+Qed.
+
+(* ================= invariants of a run ================= *)
+Section Run.
+  Variables (n : nat) (d : Z) (pfuel : nat).
+  Hypothesis Hn : Z.of_nat n < 2 ^ 62.
+  Hypothesis Hp : (n < pfuel)%nat.
+
+  (* the rest of the input: well formed, not longer than the input, and the flags are sound for what a scanner sees of it *)
+  Definition okj (t : bytes) : Prop := wfb t = true /\ (length t <= n)%nat /\ flags_sound d (skip_ws t).
+  Lemma okj_head t : okj t ->
+    wfb (skip_ws t) = true /\ len (skip_ws t) < 2 ^ 62 /\ flags_sound d (skip_ws t) /\ (length (skip_ws t) < pfuel)%nat.
+  Proof.
+    intros (W & L & F). destruct (skip_ws_suffix t) as (pre & E & _). pose proof (skip_ws_length t) as SL.
+    split; [rewrite E in W; apply wfb_app' in W; tauto|]. split; [unfold len; lia|]. split; [assumption|lia].
+  Qed.
+  Lemma okj_suffix t p t' : okj t -> skip_ws t = p ++ t' -> okj t'.
+  Proof.
+    intros H E. destruct (okj_head t H) as (W & _ & F & _). destruct H as (_ & L & _).
+    pose proof (skip_ws_length t) as SL. rewrite E in W, F, SL. rewrite app_length in SL.
+    apply wfb_app' in W. apply flags_sound_suffix in F.
+    split; [tauto|]. split; [lia|]. destruct (skip_ws_suffix t') as (pre & E' & _). rewrite E' in F.
+    apply flags_sound_suffix in F. exact F.
+  Qed.
+
+  (* one call of Next: it never runs out of fuel, and a reported token is a non-empty prefix of the trimmed rest *)
+  Lemma next_gen st : okj (t_json st) ->
+    exists r st', t_next pfuel d st = Some (r, st') /\
+      (r = true -> t_value st' <> [] /\ skip_ws (t_json st) = t_value st' ++ t_json st').
+  Proof.
+    intros H. rewrite t_next_eq. destruct (t_err st).
+    { eexists. eexists. split; [reflexivity|discriminate]. }
+    cbv zeta. rewrite skipSpaces_spec. destruct (okj_head _ H) as (W & L & F & P).
+    destruct (skip_ws (t_json st)) as [|c r] eqn:J.
+    { eexists. eexists. split; [reflexivity|discriminate]. }
+    destruct (scan_gen pfuel d st c r 0 W L F P) as (s1 & k & E & _ & _ & [D|S]); rewrite E.
+    - destruct D as (_ & _ & D1 & D2 & _). destruct (mach_gen s1 k) as (r0 & s3 & E3 & V & Jn). rewrite E3.
+      eexists. eexists. split; [reflexivity|]. intros _. rewrite V, Jn, D1, D2. split; [discriminate|reflexivity].
+    - destruct S as (_ & S1 & e & S2 & S3). rewrite mach_scalar by assumption.
+      eexists. eexists. split; [reflexivity|]. intros R. cbn [t_value t_json].
+      apply andb_true_iff in R. destruct R as [R1 R2].
+      destruct S3 as (v' & r' & k' & e' & Eq & Hok & _). injection Eq as <- <- <- <-.
+      assert (e = None) as -> by (destruct e; [rewrite S2 in R2; discriminate R2|reflexivity]).
+      destruct (Hok eq_refl) as (_ & i & I1 & I2 & I3). split.
+      + intros N. rewrite N in R1. discriminate R1.
+      + rewrite I2, I3. symmetry. apply st_sf.
+  Qed.
+
+  Lemma okj_next st st' : okj (t_json st) -> t_next pfuel d st = Some (true, st') -> okj (t_json st').
+  Proof.
+    intros H E. destruct (next_gen st H) as (r & st2 & E2 & H2). rewrite E in E2. injection E2 as <- <-.
+    destruct (H2 eq_refl) as [_ J]. apply (okj_suffix _ _ _ H J).
+  Qed.
+
+  (* ================= tok_total ================= *)
+  Definition tok_of (st' : tstate) : token :=
+    {| k_value := t_value st'; k_delim := t_delim st'; k_depth := t_depth st'; k_index := t_index st';
+       k_iskey := t_iskey st'; k_kind := t_kind st'; k_remaining := len (t_json st') |}.
+  Definition tok_chk (b : bytes) (k : token) : bool :=
+    (k_remaining k + len (k_value k) <=? len b) &&
+    bytes_eqb (k_value k) (slice b (len b - k_remaining k - len (k_value k)) (len b - k_remaining k)).
+
+  Lemma run_total b : forall m st, (length (t_json st) <= m)%nat -> okj (t_json st) -> (exists pre, b = pre ++ t_json st) ->
+    forall fuel acc, (m < fuel)%nat ->
+    exists ks stf, t_run fuel pfuel d st acc = Some (rev acc ++ ks, stf) /\ forallb (tok_chk b) ks = true.
+  Proof.
+    induction m as [|m IH]; intros st Lm H (pre & Eb) fuel acc Hf; (destruct fuel as [|fuel]; [lia|]); cbn [t_run];
+      destruct (next_gen st H) as (r & st' & E & Hr); rewrite E; destruct r.
+    - destruct (Hr eq_refl) as [V J]. exfalso. pose proof (skip_ws_length (t_json st)) as SL.
+      rewrite J, app_length in SL. destruct (t_value st'); [congruence|]. cbn [length] in SL. lia.
+    - exists [], st'. rewrite app_nil_r. split; reflexivity.
+    - destruct (Hr eq_refl) as [V J]. pose proof (skip_ws_length (t_json st)) as SL.
+      rewrite J, app_length in SL.
+      assert (1 <= length (t_value st'))%nat by (destruct (t_value st'); [congruence|cbn [length]; lia]).
+      destruct (skip_ws_suffix (t_json st)) as (ws & Ews & _).
+      assert (Eb' : b = (pre ++ ws) ++ t_value st' ++ t_json st').
+      { rewrite Eb, Ews, J, app_assoc. reflexivity. }
+      assert (Ex : exists pre', b = pre' ++ t_json st').
+      { exists ((pre ++ ws) ++ t_value st'). rewrite Eb', <- !app_assoc. reflexivity. }
+      destruct (IH st' ltac:(lia) (okj_next _ _ H E) Ex fuel (tok_of st' :: acc) ltac:(lia)) as (ks & stf & R & C).
+      exists (tok_of st' :: ks), stf. fold (tok_of st'). rewrite R. split.
+      + cbn [rev]. rewrite <- app_assoc. reflexivity.
+      + cbn [forallb]. rewrite C, andb_true_r. unfold tok_chk, tok_of. cbn [k_remaining k_value].
+        assert (SM : slice b (len b - len (t_json st') - len (t_value st')) (len b - len (t_json st')) = t_value st').
+        { rewrite Eb'. apply slice_mid. }
+        rewrite SM, bytes_eqb_refl, andb_true_r.
+        rewrite Eb', !len_app. pose proof (len_nonneg pre). pose proof (len_nonneg ws). apply Z.leb_le. clear - H1 H2. lia.
+    - exists [], st'. rewrite app_nil_r. split; reflexivity.
+  Qed.
+End Run.
+
+(* the flags of the whole input: computed on the input as it is, they are those of the left-trimmed input *)
+Lemma ipf_untrimmed fuel b : json_internalParseFlags fuel b = json_internalParseFlags fuel (skip_ws b).
+Proof. unfold json_internalParseFlags. cbv zeta. rewrite !skipSpaces_spec, skip_ws_idem. reflexivity. Qed.
+Lemma tokenize_flags b : wfb b = true -> len b < 2 ^ 62 ->
+  exists d, json_internalParseFlags (2 * length b + 8) b = Some d /\ okj (length b) d b.
+Proof.
+  intros Hw Hl. rewrite ipf_untrimmed. pose proof (skip_ws_length b) as SL.
+  destruct (skip_ws_suffix b) as (pre & Epre & _).
+  assert (W1 : wfb (skip_ws b) = true) by (rewrite Epre in Hw; apply wfb_app' in Hw; tauto).
+  assert (L1 : len (skip_ws b) < 2 ^ 62) by (unfold len in *; lia).
+  destruct (ipf_spec (2 * length b + 8) (skip_ws b) W1 L1 ltac:(lia) (skip_ws_idem b)) as (d & E & FS).
+  exists d. split; [assumption|]. split; [assumption|]. split; [lia|assumption].
+Qed.
+
 Lemma tok_total : tok_total_statement.
-Admitted.
-Lemma tokens_concat : tokens_concat_statement.
-Admitted.
+Proof.
+  intros b Hw Hl. unfold tokenize. destruct (tokenize_flags b Hw Hl) as (d & E & H). rewrite E.
+  destruct (run_total (length b) d (2 * length b + 8) Hl ltac:(lia) b (length b) (t_init b) (le_n _) H
+              (ex_intro _ [] eq_refl) (S (length b)) [] ltac:(lia)) as (ks & stf & R & C).
+  exists ks, stf. split; [exact R|exact C].
+Qed.
+
+(* ================= g_tokens, equation by equation ================= *)
+Definition gt_elems (f : nat) (depth : Z) : nat -> bytes -> Z -> list stoken -> option (list stoken * bytes) :=
+  fix elems (n : nat) (b : bytes) (i : Z) (acc : list stoken) {struct n} : option (list stoken * bytes) :=
+    match n with
+    | O => None
+    | S n' =>
+        match g_tokens f b (depth + 1) i false with
+        | None => None
+        | Some (ts, r) =>
+            match skip_ws r with
+            | 44 :: r' => elems n' (skip_ws r') (i + 1) (acc ++ ts ++ [mk_punct 44])
+            | 93 :: r' => Some (acc ++ ts ++ [mk_punct 93], r')
+            | _ => None
+            end
+        end
+    end.
+Definition gt_after_elem (f : nat) (depth : Z) (n' : nat) (i : Z) (acc ts : list stoken) (r : bytes) : option (list stoken * bytes) :=
+  match skip_ws r with
+  | [] => None
+  | c :: r' => if c =? 44 then gt_elems f depth n' (skip_ws r') (i + 1) (acc ++ ts ++ [mk_punct 44])
+               else if c =? 93 then Some (acc ++ ts ++ [mk_punct 93], r') else None
+  end.
+Lemma gt_elems_eq f depth n' b i acc : gt_elems f depth (S n') b i acc =
+  match g_tokens f b (depth + 1) i false with None => None | Some (ts, r) => gt_after_elem f depth n' i acc ts r end.
+Proof.
+  cbn [gt_elems]. destruct (g_tokens f b (depth + 1) i false) as [[ts r]|]; [|reflexivity]. unfold gt_after_elem.
+  destruct (skip_ws r) as [|c r']; [reflexivity|]. zdeep c; reflexivity.
+Qed.
+Lemma g_tokens_array f r depth index iskey : g_tokens (S f) (91 :: r) depth index iskey =
+  match skip_ws r with
+  | [] => gt_elems f depth f [] 0 [mk_scalar [91] depth index iskey]
+  | c :: r' => if c =? 93 then Some ([mk_scalar [91] depth index iskey; mk_punct 93], r')
+               else gt_elems f depth f (c :: r') 0 [mk_scalar [91] depth index iskey]
+  end.
+Proof.
+  change (g_tokens (S f) (91 :: r) depth index iskey) with
+    (match skip_ws r with
+     | 93 :: r' => Some ([mk_scalar [91] depth index iskey; mk_punct 93], r')
+     | r1 => gt_elems f depth f r1 0 [mk_scalar [91] depth index iskey]
+     end).
+  destruct (skip_ws r) as [|c r']; [reflexivity|]. zdeep c; reflexivity.
+Qed.
+
+Definition gt_members (f : nat) (depth : Z) : nat -> bytes -> Z -> list stoken -> option (list stoken * bytes) :=
+  fix members (n : nat) (b : bytes) (i : Z) (acc : list stoken) {struct n} : option (list stoken * bytes) :=
+    match n with
+    | O => None
+    | S n' =>
+        match b with
+        | 34 :: k =>
+            match g_string k with
+            | None => None
+            | Some r =>
+                let key := mk_scalar (consumed b r) (depth + 1) i true in
+                match skip_ws r with
+                | 58 :: r' =>
+                    match g_tokens f (skip_ws r') (depth + 1) i false with
+                    | None => None
+                    | Some (ts, r) =>
+                        match skip_ws r with
+                        | 44 :: r' => members n' (skip_ws r') (i + 1) (acc ++ [key; mk_punct 58] ++ ts ++ [mk_punct 44])
+                        | 125 :: r' => Some (acc ++ [key; mk_punct 58] ++ ts ++ [mk_punct 125], r')
+                        | _ => None
+                        end
+                    end
+                | _ => None
+                end
+            end
+        | _ => None
+        end
+    end.
+Definition gt_after_member (f : nat) (depth : Z) (n' : nat) (i : Z) (acc : list stoken) (key : stoken) (ts : list stoken) (r : bytes)
+  : option (list stoken * bytes) :=
+  match skip_ws r with
+  | [] => None
+  | c :: r' => if c =? 44 then gt_members f depth n' (skip_ws r') (i + 1) (acc ++ [key; mk_punct 58] ++ ts ++ [mk_punct 44])
+               else if c =? 125 then Some (acc ++ [key; mk_punct 58] ++ ts ++ [mk_punct 125], r') else None
+  end.
+Definition gt_after_key (f : nat) (depth : Z) (n' : nat) (i : Z) (acc : list stoken) (key : stoken) (r : bytes)
+  : option (list stoken * bytes) :=
+  match skip_ws r with
+  | [] => None
+  | c :: r' => if c =? 58 then
+                 match g_tokens f (skip_ws r') (depth + 1) i false with
+                 | None => None
+                 | Some (ts, r) => gt_after_member f depth n' i acc key ts r
+                 end
+               else None
+  end.
+Lemma gt_members_eq f depth n' b i acc : gt_members f depth (S n') b i acc =
+  match g_str_tok b with
+  | None => None
+  | Some r => gt_after_key f depth n' i acc (mk_scalar (consumed b r) (depth + 1) i true) r
+  end.
+Proof.
+  cbn [gt_members]. unfold g_str_tok. destruct b as [|c k]; [reflexivity|].
+  zdeep c; try reflexivity. cbv beta iota delta [Z.eqb Pos.eqb].
+  destruct (g_string k) as [r|]; [|reflexivity]. cbv zeta. unfold gt_after_key.
+  destruct (skip_ws r) as [|x r']; [reflexivity|]. zdeep x; try reflexivity.
+  cbv beta iota delta [Z.eqb Pos.eqb].
+  destruct (g_tokens f (skip_ws r') (depth + 1) i false) as [[ts r2]|]; [|reflexivity].
+  unfold gt_after_member. destruct (skip_ws r2) as [|y r3]; [reflexivity|]. zdeep y; reflexivity.
+Qed.
+Lemma g_tokens_object f r depth index iskey : g_tokens (S f) (123 :: r) depth index iskey =
+  match skip_ws r with
+  | [] => gt_members f depth f [] 0 [mk_scalar [123] depth index iskey]
+  | c :: r' => if c =? 125 then Some ([mk_scalar [123] depth index iskey; mk_punct 125], r')
+               else gt_members f depth f (c :: r') 0 [mk_scalar [123] depth index iskey]
+  end.
+Proof.
+  change (g_tokens (S f) (123 :: r) depth index iskey) with
+    (match skip_ws r with
+     | 125 :: r' => Some ([mk_scalar [123] depth index iskey; mk_punct 125], r')
+     | r1 => gt_members f depth f r1 0 [mk_scalar [123] depth index iskey]
+     end).
+  destruct (skip_ws r) as [|c r']; [reflexivity|]. zdeep c; reflexivity.
+Qed.
+Lemma g_tokens_other f c r depth index iskey : (c =? 91) || (c =? 123) = false ->
+  g_tokens (S f) (c :: r) depth index iskey =
+  match g_value (S f) (c :: r) with
+  | Some r' => Some ([mk_scalar (consumed (c :: r) r') depth index iskey], r')
+  | None => None
+  end.
+Proof. zdeep c; try reflexivity; intros H; discriminate H. Qed.
+Lemma g_tokens_nil f depth index iskey : g_tokens f [] depth index iskey = None.
+Proof. destruct f; reflexivity. Qed.
+Lemma gt_elems_nil f depth n i acc : gt_elems f depth n [] i acc = None.
+Proof. destruct n; [reflexivity|]. rewrite gt_elems_eq, g_tokens_nil. reflexivity. Qed.
+Lemma gt_members_nil f depth n i acc : gt_members f depth n [] i acc = None.
+Proof. destruct n; reflexivity. Qed.
+
+(* ================= the scope stack ================= *)
+Lemma stack_index_snoc s t n0 : stack_index (s ++ [(t, n0)]) = n0 - 1.
+Proof. unfold stack_index. rewrite rev_app_distr. reflexivity. Qed.
+Lemma stack_pop_snoc s t n0 : stack_pop (s ++ [(t, n0)]) t = Some s.
+Proof. unfold stack_pop. rewrite rev_app_distr. cbn [rev app]. rewrite Z.eqb_refl, rev_involutive. reflexivity. Qed.
+Lemma stack_incr_snoc s t n0 : stack_incr (s ++ [(t, n0)]) = s ++ [(t, n0 + 1)].
+Proof. unfold stack_incr. rewrite rev_app_distr. cbn [rev app]. rewrite rev_involutive. reflexivity. Qed.
+Lemma stack_top_snoc s t n0 t' : stack_top_is (s ++ [(t, n0)]) t' = (t =? t').
+Proof. unfold stack_top_is. rewrite rev_app_distr. reflexivity. Qed.
+Lemma len_snoc {A} (s : list A) x : len (s ++ [x]) = len s + 1.
+Proof. rewrite len_app. reflexivity. Qed.
+Lemma len_snoc_nz {A} (s : list A) x : (len (s ++ [x]) =? 0) = false.
+Proof. rewrite len_snoc. pose proof (len_nonneg s). lia. Qed.
+
+(* ================= the state machine, delimiter by delimiter ================= *)
+Definition mk_st (dl : Z) (v : bytes) (depth index : Z) (iskn : bool) (json : bytes) (stk : list (Z * Z)) (k : Z) : tstate :=
+  {| t_delim := dl; t_value := v; t_err := false; t_depth := depth; t_index := index; t_iskey := false;
+     t_iskey_next := iskn; t_json := json; t_stack := stk; t_kind := k |}.
+Lemma mach_open_arr s1 k : t_delim s1 = 91 -> t_err s1 = false ->
+  t_mach s1 k = Some (true, mk_st 91 (t_value s1) (len (t_stack s1)) (stack_index (t_stack s1)) (t_iskey_next s1) (t_json s1)
+                               (t_stack s1 ++ [(0, 1)]) k).
+Proof. intros H1 H2. unfold t_mach. rewrite H1, H2. reflexivity. Qed.
+Lemma mach_open_obj s1 k : t_delim s1 = 123 -> t_err s1 = false ->
+  t_mach s1 k = Some (true, mk_st 123 (t_value s1) (len (t_stack s1)) (stack_index (t_stack s1)) true (t_json s1)
+                               (t_stack s1 ++ [(1, 1)]) k).
+Proof. intros H1 H2. unfold t_mach. rewrite H1, H2. reflexivity. Qed.
+Lemma mach_close_arr s1 k stk n0 : t_delim s1 = 93 -> t_stack s1 = stk ++ [(0, n0)] ->
+  t_mach s1 k = Some (true, mk_st 93 (t_value s1) (len (stk ++ [(0, n0)]) - 1) (stack_index stk) (t_iskey_next s1) (t_json s1) stk k).
+Proof. intros H1 H2. unfold t_mach. rewrite H1, H2, stack_pop_snoc. reflexivity. Qed.
+Lemma mach_close_obj s1 k stk n0 : t_delim s1 = 125 -> t_stack s1 = stk ++ [(1, n0)] ->
+  t_mach s1 k = Some (true, mk_st 125 (t_value s1) (len (stk ++ [(1, n0)]) - 1) (stack_index stk) false (t_json s1) stk k).
+Proof. intros H1 H2. unfold t_mach. rewrite H1, H2, stack_pop_snoc. reflexivity. Qed.
+Lemma mach_colon s1 k : t_delim s1 = 58 -> t_err s1 = false ->
+  t_mach s1 k = Some (true, mk_st 58 (t_value s1) (len (t_stack s1)) (stack_index (t_stack s1)) false (t_json s1) (t_stack s1) k).
+Proof. intros H1 H2. unfold t_mach. rewrite H1, H2. reflexivity. Qed.
+Lemma mach_comma s1 k stk t n0 : t_delim s1 = 44 -> t_err s1 = false -> t_stack s1 = stk ++ [(t, n0)] ->
+  t_mach s1 k = Some (true, mk_st 44 (t_value s1) (len (stk ++ [(t, n0)])) (stack_index (stk ++ [(t, n0)]))
+                               (if t =? 1 then true else t_iskey_next s1) (t_json s1) (stk ++ [(t, n0 + 1)]) k).
+Proof.
+  intros H1 H2 H3. unfold t_mach. rewrite H1, H2, H3, len_snoc_nz, stack_top_snoc, stack_incr_snoc. reflexivity.
+Qed.
+
+(* ================= runs of the tokenizer ================= *)
+Lemma consumed_sf (j : bytes) i : 0 <= i <= len j -> consumed j (slice_from j i) = slice_to j i.
+Proof.
+  intros H. unfold consumed, slice_from, slice_to. f_equal. rewrite skipn_length. unfold len in H. lia.
+Qed.
+Lemma token_matches_punct st' c : t_value st' = [c] -> token_matches (tok_of st') (mk_punct c) = true.
+Proof. intros H. unfold token_matches, tok_of. cbn. rewrite H. cbn. rewrite Z.eqb_refl. reflexivity. Qed.
+Lemma token_matches_scalar st' v depth index iskey :
+  t_value st' = v -> t_depth st' = depth -> t_index st' = index -> t_iskey st' = iskey ->
+  token_matches (tok_of st') (mk_scalar v depth index iskey) = true.
+Proof.
+  intros H1 H2 H3 H4. unfold token_matches, tok_of. cbn. rewrite H1, H2, H3, H4, bytes_eqb_refl, !Z.eqb_refl.
+  destruct iskey; reflexivity.
+Qed.
+
+Section Exact.
+  Variables (n : nat) (d : Z) (pfuel : nat).
+  Hypothesis Hn : Z.of_nat n < 2 ^ 62.
+  Hypothesis Hp : (n < pfuel)%nat.
+
+  Definition tmatch (k : token) (s : stoken) : Prop := token_matches k s = true.
+  Inductive steps : tstate -> list token -> tstate -> Prop :=
+  | steps_nil st : steps st [] st
+  | steps_cons st st' st'' ks : t_next pfuel d st = Some (true, st') -> steps st' ks st'' -> steps st (tok_of st' :: ks) st''.
+  Lemma steps_app a k1 b k2 c : steps a k1 b -> steps b k2 c -> steps a (k1 ++ k2) c.
+  Proof. induction 1; intros H2; [exact H2|]. cbn [app]. econstructor; eauto. Qed.
+  Lemma steps_len st ks st' : okj n d (t_json st) -> steps st ks st' ->
+    okj n d (t_json st') /\ (length ks + length (t_json st') <= length (t_json st))%nat.
+  Proof.
+    intros H S. induction S as [st|st st' st'' ks E S IH]; [split; [assumption|cbn; lia]|].
+    destruct (next_gen n d pfuel Hn Hp st H) as (r & st2 & E2 & H2). rewrite E in E2. injection E2 as <- <-.
+    destruct (H2 eq_refl) as [V J]. destruct (IH (okj_next n d pfuel Hn Hp _ _ H E)) as [O L]. split; [exact O|].
+    pose proof (skip_ws_length (t_json st)) as SL. rewrite J, app_length in SL.
+    destruct (t_value st'); [congruence|]. cbn [length] in *. lia.
+  Qed.
+  Lemma t_run_steps st ks st' stf : steps st ks st' -> t_next pfuel d st' = Some (false, stf) ->
+    forall fuel acc, (length ks < fuel)%nat -> t_run fuel pfuel d st acc = Some (rev acc ++ ks, stf).
+  Proof.
+    intros S F. induction S as [st|st st' st'' ks E S IH]; intros fuel acc Hf; (destruct fuel as [|fuel]; [cbn [length] in Hf; lia|]); cbn [t_run].
+    - rewrite F, app_nil_r. reflexivity.
+    - rewrite E. fold (tok_of st'). rewrite (IH F) by (cbn [length] in Hf; lia). cbn [rev]. rewrite <- app_assoc. reflexivity.
+  Qed.
+
+  (* where the tokenizer stands: rest of the input, scope stack, the isKey field; no error *)
+  Definition tk_at (st : tstate) (r : bytes) (stk : list (Z * Z)) (k : bool) : Prop :=
+    t_json st = r /\ t_stack st = stk /\ t_iskey_next st = k /\ t_err st = false /\ okj n d (t_json st).
+  Definition runs (st : tstate) (ts : list stoken) (r : bytes) (stk : list (Z * Z)) (k : bool) : Prop :=
+    exists ks st', steps st ks st' /\ Forall2 tmatch ks ts /\ tk_at st' r stk k.
+  Lemma runs_seq st ts1 ts2 r1 stk1 k1 r stk k : runs st ts1 r1 stk1 k1 ->
+    (forall st1, tk_at st1 r1 stk1 k1 -> runs st1 ts2 r stk k) -> runs st (ts1 ++ ts2) r stk k.
+  Proof.
+    intros (ks1 & st1 & S1 & M1 & A1) H. destruct (H st1 A1) as (ks2 & st2 & S2 & M2 & A2).
+    exists (ks1 ++ ks2), st2. split; [eapply steps_app; eassumption|]. split; [apply Forall2_app; assumption|assumption].
+  Qed.
+  Lemma runs_one st st' s r stk k : okj n d (t_json st) -> t_next pfuel d st = Some (true, st') -> tmatch (tok_of st') s ->
+    t_json st' = r -> t_stack st' = stk -> t_iskey_next st' = k -> t_err st' = false -> runs st [s] r stk k.
+  Proof.
+    intros O E M H1 H2 H3 H4. exists [tok_of st'], st'. split; [econstructor; [exact E|constructor]|].
+    split; [constructor; [exact M|constructor]|]. repeat (split; [assumption|]). apply (okj_next n d pfuel Hn Hp _ _ O E).
+  Qed.
+
+  (* a delimiter goes through the scan phase unchanged *)
+  Lemma next_delim st c r : t_err st = false -> skip_ws (t_json st) = c :: r -> is_delim c = true ->
+    exists s1 k, t_next pfuel d st = t_mach s1 k /\ t_delim s1 = c /\ t_value s1 = [c] /\ t_json s1 = r /\ t_err s1 = false /\
+      t_stack s1 = t_stack st /\ t_iskey_next s1 = t_iskey_next st.
+  Proof.
+    intros H1 H2 H3. rewrite t_next_eq, H1. cbv zeta. rewrite skipSpaces_spec, H2. unfold t_scan.
+    destruct (Z.eqb_spec c 34); [subst c; discriminate H3|].
+    destruct (Z.eqb_spec c 110); [subst c; discriminate H3|].
+    destruct (Z.eqb_spec c 116); [subst c; discriminate H3|].
+    destruct (Z.eqb_spec c 102); [subst c; discriminate H3|].
+    destruct ((c =? 45) || ((48 <=? c) && (c <=? 57))) eqn:T; [unfold is_delim in H3; clear - H3 T; lia|].
+    rewrite H3. eexists. eexists. split; [reflexivity|]. cbn [t_delim t_value t_json t_err t_stack t_iskey_next].
+    repeat split.
+  Qed.
+
+  Lemma run_open_arr st j0 stk k r : tk_at st j0 stk k -> skip_ws j0 = 91 :: r ->
+    runs st [mk_scalar [91] (len stk) (stack_index stk) false] r (stk ++ [(0, 1)]) k.
+  Proof.
+    intros (A1 & A2 & A3 & A4 & A5) J. rewrite <- A1 in J.
+    destruct (next_delim st 91 r A4 J eq_refl) as (s1 & k1 & E & D1 & D2 & D3 & D4 & D5 & D6).
+    rewrite (mach_open_arr s1 k1 D1 D4) in E. eapply runs_one; [exact A5|exact E| | | | |]; cbn; try congruence.
+    apply token_matches_scalar; cbn; congruence.
+  Qed.
+  Lemma run_open_obj st j0 stk k r : tk_at st j0 stk k -> skip_ws j0 = 123 :: r ->
+    runs st [mk_scalar [123] (len stk) (stack_index stk) false] r (stk ++ [(1, 1)]) true.
+  Proof.
+    intros (A1 & A2 & A3 & A4 & A5) J. rewrite <- A1 in J.
+    destruct (next_delim st 123 r A4 J eq_refl) as (s1 & k1 & E & D1 & D2 & D3 & D4 & D5 & D6).
+    rewrite (mach_open_obj s1 k1 D1 D4) in E. eapply runs_one; [exact A5|exact E| | | | |]; cbn; try congruence.
+    apply token_matches_scalar; cbn; congruence.
+  Qed.
+  Lemma run_close_arr st j0 stk n0 k r : tk_at st j0 (stk ++ [(0, n0)]) k -> skip_ws j0 = 93 :: r ->
+    runs st [mk_punct 93] r stk k.
+  Proof.
+    intros (A1 & A2 & A3 & A4 & A5) J. rewrite <- A1 in J.
+    destruct (next_delim st 93 r A4 J eq_refl) as (s1 & k1 & E & D1 & D2 & D3 & D4 & D5 & D6).
+    rewrite (mach_close_arr s1 k1 stk n0 D1 ltac:(congruence)) in E.
+    eapply runs_one; [exact A5|exact E| | | | |]; cbn; try congruence.
+    apply token_matches_punct; cbn; congruence.
+  Qed.
+  Lemma run_close_obj st j0 stk n0 k r : tk_at st j0 (stk ++ [(1, n0)]) k -> skip_ws j0 = 125 :: r ->
+    runs st [mk_punct 125] r stk false.
+  Proof.
+    intros (A1 & A2 & A3 & A4 & A5) J. rewrite <- A1 in J.
+    destruct (next_delim st 125 r A4 J eq_refl) as (s1 & k1 & E & D1 & D2 & D3 & D4 & D5 & D6).
+    rewrite (mach_close_obj s1 k1 stk n0 D1 ltac:(congruence)) in E.
+    eapply runs_one; [exact A5|exact E| | | | |]; cbn; try congruence.
+    apply token_matches_punct; cbn; congruence.
+  Qed.
+  Lemma run_colon st j0 stk k r : tk_at st j0 stk k -> skip_ws j0 = 58 :: r -> runs st [mk_punct 58] r stk false.
+  Proof.
+    intros (A1 & A2 & A3 & A4 & A5) J. rewrite <- A1 in J.
+    destruct (next_delim st 58 r A4 J eq_refl) as (s1 & k1 & E & D1 & D2 & D3 & D4 & D5 & D6).
+    rewrite (mach_colon s1 k1 D1 D4) in E. eapply runs_one; [exact A5|exact E| | | | |]; cbn; try congruence.
+    apply token_matches_punct; cbn; congruence.
+  Qed.
+  Lemma run_comma st j0 stk t n0 k r : tk_at st j0 (stk ++ [(t, n0)]) k -> skip_ws j0 = 44 :: r ->
+    runs st [mk_punct 44] r (stk ++ [(t, n0 + 1)]) (if t =? 1 then true else k).
+  Proof.
+    intros (A1 & A2 & A3 & A4 & A5) J. rewrite <- A1 in J.
+    destruct (next_delim st 44 r A4 J eq_refl) as (s1 & k1 & E & D1 & D2 & D3 & D4 & D5 & D6).
+    rewrite (mach_comma s1 k1 stk t n0 D1 D4 ltac:(congruence)) in E.
+    eapply runs_one; [exact A5|exact E| | | | |]; cbn; try congruence.
+    - apply token_matches_punct; cbn; congruence.
+    - rewrite D6, A3. reflexivity.
+  Qed.
+  (* a scalar: the scanner chosen by the first byte consumes exactly what the grammar consumes *)
+  Lemma run_scalar st j0 stk k c r r' f : tk_at st j0 stk k -> skip_ws j0 = c :: r -> (c =? 91) || (c =? 123) = false ->
+    g_value (S f) (c :: r) = Some r' ->
+    runs st [mk_scalar (consumed (c :: r) r') (len stk) (stack_index stk) k] r' stk k.
+  Proof.
+    intros (A1 & A2 & A3 & A4 & A5) J C G. rewrite <- A1 in J.
+    destruct (okj_head n d pfuel Hn Hp _ A5) as (W & L & F & P).
+    pose proof (okj_next n d pfuel Hn Hp st) as ON.
+    rewrite t_next_eq, A4 in ON. cbv zeta in ON. rewrite skipSpaces_spec in ON.
+    assert (TN : t_next pfuel d st = match t_scan pfuel d st c (c :: r) with None => None | Some (s1, kind) => t_mach s1 kind end).
+    { rewrite t_next_eq, A4. cbv zeta. rewrite skipSpaces_spec, J. reflexivity. }
+    rewrite J in W, L, F, P, ON.
+    destruct (scan_gen pfuel d st c r f W L F P) as (s1 & k1 & E & S1 & S2 & [D|S]).
+    - exfalso. destruct D as (D & _). rewrite (g_value_bad (S f) c r) in G; [discriminate G|].
+      unfold is_delim in D. clear - D C. lia.
+    - destruct S as (_ & S3 & e & S4 & (v' & r2 & k' & e' & Eq & Hok & Herr)). injection Eq as <- <- <- <-.
+      assert (e = None) as -> by (destruct e as [e|]; [|reflexivity]; rewrite Herr in G by discriminate; discriminate G).
+      destruct (Hok eq_refl) as (G2 & i & I1 & I2 & I3). rewrite G in G2. injection G2 as G2.
+      rewrite E in TN, ON. rewrite (mach_scalar s1 k1 S3) in TN, ON.
+      assert (LV : (len (t_value s1) =? 0) = false).
+      { rewrite I2. unfold slice_to, len. rewrite firstn_length. unfold len in I1. lia. }
+      rewrite LV, S4 in TN, ON. cbn [isnil negb andb] in TN, ON.
+      eexists. eexists. split; [econstructor; [exact TN|constructor]|].
+      split; [constructor; [|constructor]|].
+      + apply token_matches_scalar; cbn [t_value t_depth t_index t_iskey]; try congruence.
+        rewrite I2, G2, I3. symmetry. apply consumed_sf. lia.
+      + split; [cbn; congruence|]. split; [cbn; congruence|]. split; [cbn; congruence|]. split; [reflexivity|].
+        apply ON; [assumption|reflexivity].
+  Qed.
+
+  (* ================= a whole value ================= *)
+  Definition value_ok (f : nat) : Prop :=
+    forall j depth index ts r, g_tokens f j depth index false = Some (ts, r) ->
+    forall st j0 stk, tk_at st j0 stk false -> skip_ws j0 = j -> len stk = depth -> stack_index stk = index ->
+    runs st ts r stk false.
+
+  Lemma elems_ok f depth stk : value_ok f -> len stk = depth ->
+    forall m b i acc tsall r, gt_elems f depth m b i acc = Some (tsall, r) ->
+    exists ts', tsall = acc ++ ts' /\
+      forall st j0, tk_at st j0 (stk ++ [(0, i + 1)]) false -> skip_ws j0 = b -> runs st ts' r stk false.
+  Proof.
+    intros IHv Hd. induction m as [|m IHm]; intros b i acc tsall r G; [discriminate G|].
+    rewrite gt_elems_eq in G. destruct (g_tokens f b (depth + 1) i false) as [[ts1 r1]|] eqn:G1; [|discriminate G].
+    unfold gt_after_elem in G. destruct (skip_ws r1) as [|c r'] eqn:J1; [discriminate G|].
+    assert (R1 : forall st j0, tk_at st j0 (stk ++ [(0, i + 1)]) false -> skip_ws j0 = b ->
+                 runs st ts1 r1 (stk ++ [(0, i + 1)]) false).
+    { intros st j0 A J. apply (IHv _ _ _ _ _ G1 st j0 _ A J).
+      - rewrite len_snoc, Hd. reflexivity.
+      - rewrite stack_index_snoc. lia. }
+    destruct (Z.eqb_spec c 44) as [->|C1].
+    - destruct (IHm _ _ _ _ _ G) as (ts2 & E2 & R2).
+      exists (ts1 ++ [mk_punct 44] ++ ts2). split; [rewrite E2, <- !app_assoc; reflexivity|].
+      intros st j0 A J. apply (runs_seq _ _ _ _ _ _ _ _ _ (R1 st j0 A J)). intros st1 A1.
+      apply (runs_seq _ _ _ _ _ _ _ _ _ (run_comma st1 r1 stk 0 (i + 1) false r' A1 J1)). intros st2 A2.
+      apply (R2 st2 r' A2 eq_refl).
+    - destruct (Z.eqb_spec c 93) as [->|C2]; [|discriminate G]. injection G as <- <-.
+      exists (ts1 ++ [mk_punct 93]). split; [reflexivity|].
+      intros st j0 A J. apply (runs_seq _ _ _ _ _ _ _ _ _ (R1 st j0 A J)). intros st1 A1.
+      apply (run_close_arr st1 r1 stk (i + 1) false _ A1 J1).
+  Qed.
+
+  Lemma members_ok f depth stk : value_ok f -> len stk = depth ->
+    forall m b i acc tsall r, gt_members f depth m b i acc = Some (tsall, r) ->
+    exists ts', tsall = acc ++ ts' /\
+      forall st j0, tk_at st j0 (stk ++ [(1, i + 1)]) true -> skip_ws j0 = b -> runs st ts' r stk false.
+  Proof.
+    intros IHv Hd. induction m as [|m IHm]; intros b i acc tsall r G; [discriminate G|].
+    rewrite gt_members_eq in G. destruct (g_str_tok b) as [rk|] eqn:GK; [|discriminate G].
+    unfold g_str_tok in GK. destruct b as [|c k]; [discriminate GK|].
+    destruct (Z.eqb_spec c 34) as [->|C0]; [|discriminate GK].
+    set (key := mk_scalar (consumed (34 :: k) rk) (depth + 1) i true) in *.
+    unfold gt_after_key in G. destruct (skip_ws rk) as [|c2 r2] eqn:J2; [discriminate G|].
+    destruct (Z.eqb_spec c2 58) as [->|C2]; [|discriminate G].
+    destruct (g_tokens f (skip_ws r2) (depth + 1) i false) as [[ts1 r1]|] eqn:G1; [|discriminate G].
+    unfold gt_after_member in G. destruct (skip_ws r1) as [|c3 r3] eqn:J3; [discriminate G|].
+    assert (R1 : forall st j0, tk_at st j0 (stk ++ [(1, i + 1)]) true -> skip_ws j0 = 34 :: k ->
+                 runs st ([key] ++ [mk_punct 58] ++ ts1) r1 (stk ++ [(1, i + 1)]) false).
+    { intros st j0 A J.
+      pose proof (run_scalar st j0 _ true 34 k rk 0 A J eq_refl GK) as RK.
+      rewrite len_snoc, stack_index_snoc, Hd in RK. replace (i + 1 - 1) with i in RK by lia. fold key in RK.
+      apply (runs_seq _ _ _ _ _ _ _ _ _ RK). intros st1 A1.
+      apply (runs_seq _ _ _ _ _ _ _ _ _ (run_colon st1 rk _ true r2 A1 J2)). intros st2 A2.
+      apply (IHv _ _ _ _ _ G1 st2 r2 _ A2 eq_refl).
+      - rewrite len_snoc, Hd. reflexivity.
+      - rewrite stack_index_snoc. lia. }
+    destruct (Z.eqb_spec c3 44) as [->|C3].
+    - destruct (IHm _ _ _ _ _ G) as (ts2 & E2 & R2).
+      exists (([key] ++ [mk_punct 58] ++ ts1) ++ [mk_punct 44] ++ ts2). split; [rewrite E2, <- !app_assoc; reflexivity|].
+      intros st j0 A J. apply (runs_seq _ _ _ _ _ _ _ _ _ (R1 st j0 A J)). intros st1 A1.
+      apply (runs_seq _ _ _ _ _ _ _ _ _ (run_comma st1 r1 stk 1 (i + 1) false r3 A1 J3)). intros st2 A2.
+      apply (R2 st2 r3 A2 eq_refl).
+    - destruct (Z.eqb_spec c3 125) as [->|C4]; [|discriminate G]. injection G as <- <-.
+      exists (([key] ++ [mk_punct 58] ++ ts1) ++ [mk_punct 125]). split; [rewrite <- !app_assoc; reflexivity|].
+      intros st j0 A J. apply (runs_seq _ _ _ _ _ _ _ _ _ (R1 st j0 A J)). intros st1 A1.
+      apply (run_close_obj st1 r1 stk (i + 1) false _ A1 J3).
+  Qed.
+
+  Lemma run_value : forall f, value_ok f.
+  Proof.
+    induction f as [|f IH]; intros j depth index ts r G st j0 stk A J D I; [discriminate G|].
+    destruct j as [|c r0]; [rewrite g_tokens_nil in G; discriminate G|]. subst depth index.
+    destruct (Z.eqb_spec c 91) as [->|C1].
+    { rewrite g_tokens_array in G. pose proof (run_open_arr st j0 stk false r0 A J) as R0.
+      destruct (skip_ws r0) as [|c' r'] eqn:J1; [rewrite gt_elems_nil in G; discriminate G|].
+      destruct (Z.eqb_spec c' 93) as [->|C'].
+      - injection G as <- <-.
+        apply (runs_seq _ [_] [_] _ _ _ _ _ _ R0). intros st1 A1. apply (run_close_arr st1 r0 stk 1 false _ A1 J1).
+      - destruct (elems_ok f (len stk) stk IH eq_refl _ _ _ _ _ _ G) as (ts' & E & R). subst ts.
+        apply (runs_seq _ _ _ _ _ _ _ _ _ R0). intros st1 A1. apply (R st1 r0 A1 J1). }
+    destruct (Z.eqb_spec c 123) as [->|C2].
+    { rewrite g_tokens_object in G. pose proof (run_open_obj st j0 stk false r0 A J) as R0.
+      destruct (skip_ws r0) as [|c' r'] eqn:J1; [rewrite gt_members_nil in G; discriminate G|].
+      destruct (Z.eqb_spec c' 125) as [->|C'].
+      - injection G as <- <-.
+        apply (runs_seq _ [_] [_] _ _ _ _ _ _ R0). intros st1 A1. apply (run_close_obj st1 r0 stk 1 true _ A1 J1).
+      - destruct (members_ok f (len stk) stk IH eq_refl _ _ _ _ _ _ G) as (ts' & E & R). subst ts.
+        apply (runs_seq _ _ _ _ _ _ _ _ _ R0). intros st1 A1. apply (R st1 r0 A1 J1). }
+    assert (C : (c =? 91) || (c =? 123) = false) by lia.
+    rewrite (g_tokens_other f c r0 _ _ _ C) in G.
+    destruct (g_value (S f) (c :: r0)) as [r'|] eqn:GV; [|discriminate G]. injection G as <- <-.
+    apply (run_scalar st j0 stk false c r0 r' f A J C GV).
+  Qed.
+End Exact.
+
+Lemma tokens_match_Forall2 ks : forall ss, Forall2 tmatch ks ss -> tokens_match ks ss = true.
+Proof. induction 1 as [|k s kr sr M _ IH]; [reflexivity|]. cbn [tokens_match]. rewrite M, IH. reflexivity. Qed.
+
 Lemma tokens_exact : tokens_exact_statement.
-Admitted.
+Proof.
+  intros b ss Hw Hl Hs. unfold spec_tokens in Hs.
+  destruct (g_tokens (S (length b)) (skip_ws b) 0 0 false) as [[ts r]|] eqn:G; [|discriminate Hs].
+  destruct (skip_ws r) as [|x l] eqn:Jr; [|discriminate Hs]. injection Hs as ->.
+  unfold tokenize. destruct (tokenize_flags b Hw Hl) as (d & E & H). rewrite E.
+  assert (Hp : (length b < 2 * length b + 8)%nat) by lia.
+  assert (A : tk_at (length b) d (t_init b) b [] false) by (do 4 (split; [reflexivity|]); exact H).
+  destruct (run_value (length b) d (2 * length b + 8) Hl Hp _ _ _ _ _ _ G (t_init b) b [] A eq_refl eq_refl eq_refl)
+    as (ks & st' & Sts & M & (A1 & A2 & A3 & A4 & A5)).
+  assert (F : t_next (2 * length b + 8) d st' = Some (false, t_init [])).
+  { rewrite t_next_eq, A4. cbv zeta. rewrite skipSpaces_spec, A1, Jr. reflexivity. }
+  destruct (steps_len (length b) d (2 * length b + 8) Hl Hp (t_init b) ks st' H Sts) as [_ L]. cbn [t_json t_init] in L.
+  exists ks, (t_init []). split.
+  - eapply t_run_steps with (acc := []); try eassumption; lia.
+  - split; [reflexivity|]. apply tokens_match_Forall2. exact M.
+Qed.
+
+(* ================= tokens_concat: the specification tokens are the compacted document ================= *)
+Local Notation sws := strip_ws_outside_strings.
+Definition cval (ts : list stoken) : bytes := concat (map st_value ts).
+Lemma cval_app a b : cval (a ++ b) = cval a ++ cval b.
+Proof. unfold cval. rewrite map_app, concat_app. reflexivity. Qed.
+Lemma cval_scalar v depth index iskey : cval [mk_scalar v depth index iskey] = v.
+Proof. unfold cval. cbn [map concat st_value mk_scalar]. apply app_nil_r. Qed.
+Lemma consumed_app (p r : bytes) : consumed (p ++ r) r = p.
+Proof.
+  unfold consumed. rewrite app_length. replace (length p + length r - length r)%nat with (length p) by lia.
+  rewrite firstn_app, firstn_all, Nat.sub_diag. cbn [firstn]. apply app_nil_r.
+Qed.
+Lemma sws_skip_ws x : sws false false x = sws false false (skip_ws x).
+Proof.
+  induction x as [|c r IH]; [reflexivity|]. cbn [skip_ws sws]. destruct (is_ws c) eqn:W; [exact IH|].
+  cbn [sws]. rewrite W. reflexivity.
+Qed.
+(* bytes that are copied outside a string: neither white space nor a quote *)
+Definition numch (c : Z) : bool := negb (is_ws c) && negb (c =? 34).
+Definition numsplit (b r : bytes) : Prop := exists p, b = p ++ r /\ forallb numch p = true.
+Lemma numsplit_refl b : numsplit b b.
+Proof. exists []. split; reflexivity. Qed.
+Lemma numsplit_cons c b r : numch c = true -> numsplit b r -> numsplit (c :: b) r.
+Proof. intros H (p & E & F). exists (c :: p). split; [rewrite E; reflexivity|]. cbn [forallb]. rewrite H, F. reflexivity. Qed.
+Lemma numsplit_trans a b c : numsplit a b -> numsplit b c -> numsplit a c.
+Proof.
+  intros (p & E1 & F1) (q & E2 & F2). exists (p ++ q). split; [rewrite E1, E2, app_assoc; reflexivity|].
+  rewrite forallb_app, F1, F2. reflexivity.
+Qed.
+Lemma numsplit_sws b r : numsplit b r -> exists p, b = p ++ r /\ forall x, sws false false (p ++ x) = p ++ sws false false x.
+Proof.
+  intros (p & E & F). exists p. split; [exact E|]. intros x. clear E. induction p as [|c p IH]; [reflexivity|].
+  cbn [forallb] in F. apply andb_true_iff in F. destruct F as [F1 F2]. unfold numch in F1.
+  apply andb_true_iff in F1. destruct F1 as [N1 N2]. apply negb_true_iff in N1, N2.
+  cbn [app sws]. rewrite N1, N2, (IH F2). reflexivity.
+Qed.
+Lemma digit_numch c : is_digit c = true -> numch c = true.
+Proof. unfold is_digit, numch, is_ws. lia. Qed.
+Lemma skip_digits_split r : numsplit r (skip_digits r).
+Proof.
+  induction r as [|c r IH]; [apply numsplit_refl|]. cbn [skip_digits]. destruct (is_digit c) eqn:D; [|apply numsplit_refl].
+  apply numsplit_cons; [apply digit_numch; exact D|exact IH].
+Qed.
+Lemma g_frac_split b r : g_frac b = Some r -> numsplit b r.
+Proof.
+  rewrite g_frac_eq. destruct b as [|c b]; [intros H; injection H as <-; apply numsplit_refl|].
+  destruct (Z.eqb_spec c 46) as [->|C].
+  - destruct b as [|x b]; [discriminate|]. destruct (is_digit x) eqn:D; [|discriminate]. intros H. injection H as <-.
+    apply numsplit_cons; [reflexivity|]. apply numsplit_cons; [apply digit_numch; exact D|]. apply skip_digits_split.
+  - intros H. injection H as <-. apply numsplit_refl.
+Qed.
+Lemma g_exp_split b r : g_exp b = Some r -> numsplit b r.
+Proof.
+  unfold g_exp. destruct b as [|e b]; [intros H; injection H as <-; apply numsplit_refl|].
+  destruct ((e =? 101) || (e =? 69)) eqn:E; [|intros H; injection H as <-; apply numsplit_refl].
+  assert (Ne : numch e = true) by (unfold numch, is_ws; lia).
+  assert (T : forall b', match b' with x :: r' => if is_digit x then Some (skip_digits r') else None | [] => None end = Some r ->
+              numsplit b' r).
+  { intros [|x r'] H; [discriminate H|]. destruct (is_digit x) eqn:D; [|discriminate H]. injection H as <-.
+    apply numsplit_cons; [apply digit_numch; exact D|apply skip_digits_split]. }
+  destruct b as [|s b].
+  - intros H. discriminate H.
+  - destruct ((s =? 43) || (s =? 45)) eqn:Sg; intros H; apply numsplit_cons; try exact Ne.
+    + apply numsplit_cons; [unfold numch, is_ws; lia|]. apply T. exact H.
+    + apply T. exact H.
+Qed.
+Lemma g_number_split b r : g_number b = Some r -> numsplit b r.
+Proof.
+  rewrite g_number_eq.
+  assert (B : forall b', g_number_body b' = Some r -> numsplit b' r).
+  { intros [|c b'] H; [discriminate H|]. cbn [g_number_body] in H.
+    assert (FE : forall x, match g_frac x with Some r0 => g_exp r0 | None => None end = Some r -> numsplit x r).
+    { intros x Hx. destruct (g_frac x) as [r0|] eqn:Fx; [|discriminate Hx].
+      eapply numsplit_trans; [apply g_frac_split; exact Fx|apply g_exp_split; exact Hx]. }
+    destruct (Z.eqb_spec c 48) as [->|C].
+    - apply numsplit_cons; [reflexivity|]. apply FE. exact H.
+    - destruct (is_digit c) eqn:D; [|discriminate H]. apply numsplit_cons; [apply digit_numch; exact D|].
+      eapply numsplit_trans; [apply skip_digits_split|apply FE; exact H]. }
+  destruct b as [|c b]; [intros H; apply B; exact H|].
+  destruct (Z.eqb_spec c 45) as [->|C]; intros H; [|apply B; exact H].
+  apply numsplit_cons; [reflexivity|]. apply B. exact H.
+Qed.
+
+(* a string body is copied as it is, and the copy ends outside the string just after the closing quote *)
+Lemma sws_in_cons c r : sws true false (c :: r) =
+  c :: (if c =? 92 then sws true true r else if c =? 34 then sws false false r else sws true false r).
+Proof. reflexivity. Qed.
+Lemma sws_esc_cons c r : sws true true (c :: r) = c :: sws true false r.
+Proof. reflexivity. Qed.
+Lemma hex_plain h r : is_hex h = true -> sws true false (h :: r) = h :: sws true false r.
+Proof.
+  intros H. rewrite sws_in_cons. unfold is_hex, is_digit in H.
+  destruct (Z.eqb_spec h 92); [lia|]. destruct (Z.eqb_spec h 34); [lia|]. reflexivity.
+Qed.
+Lemma g_string_split : forall m k r, (length k <= m)%nat -> g_string k = Some r ->
+  exists p, k = p ++ r /\ forall x, sws true false (p ++ x) = p ++ sws false false x.
+Proof.
+  induction m as [|m IH]; intros k r Lk G; (destruct k as [|c k]; [discriminate G|]); [cbn [length] in Lk; lia|].
+  cbn [length] in Lk. rewrite g_string_eq in G.
+  destruct (Z.eqb_spec c 34) as [->|C1].
+  { injection G as <-. exists [34]. split; [reflexivity|]. intros x. reflexivity. }
+  destruct (Z.eqb_spec c 92) as [->|C2].
+  { destruct k as [|e k]; [discriminate G|]. cbn [length] in Lk. destruct (is_escape_letter e).
+    - destruct (IH k r ltac:(lia) G) as (p & E & F). exists (92 :: e :: p). split; [rewrite E; reflexivity|].
+      intros x. cbn [app]. rewrite sws_in_cons. cbn [Z.eqb Pos.eqb]. rewrite sws_esc_cons, F. reflexivity.
+    - destruct (Z.eqb_spec e 117) as [->|C3]; [|discriminate G].
+      destruct k as [|h1 [|h2 [|h3 [|h4 k]]]]; try discriminate G. cbn [length] in Lk.
+      destruct (is_hex h1) eqn:X1; [|discriminate G]. destruct (is_hex h2) eqn:X2; [|discriminate G].
+      destruct (is_hex h3) eqn:X3; [|discriminate G]. destruct (is_hex h4) eqn:X4; [|discriminate G].
+      cbn [andb] in G. destruct (IH k r ltac:(lia) G) as (p & E & F).
+      exists (92 :: 117 :: h1 :: h2 :: h3 :: h4 :: p). split; [rewrite E; reflexivity|].
+      intros x. cbn [app]. rewrite sws_in_cons. cbn [Z.eqb Pos.eqb]. rewrite sws_esc_cons.
+      rewrite (hex_plain h1) by assumption. rewrite (hex_plain h2) by assumption.
+      rewrite (hex_plain h3) by assumption. rewrite (hex_plain h4) by assumption. rewrite F. reflexivity. }
+  destruct (c <? 32); [discriminate G|].
+  destruct (IH k r ltac:(lia) G) as (p & E & F). exists (c :: p). split; [rewrite E; reflexivity|].
+  intros x. cbn [app]. rewrite sws_in_cons.
+  destruct (Z.eqb_spec c 92); [contradiction|]. destruct (Z.eqb_spec c 34); [contradiction|]. rewrite F. reflexivity.
+Qed.
+
+(* a scalar is copied as it is *)
+Lemma scalar_split f c r0 r' : (c =? 91) || (c =? 123) = false -> g_value (S f) (c :: r0) = Some r' ->
+  exists p, c :: r0 = p ++ r' /\ forall x, sws false false (p ++ x) = p ++ sws false false x.
+Proof.
+  intros C G.
+  destruct (Z.eqb_spec c 34) as [->|C3].
+  { rewrite g_value_string in G. destruct (g_string_split _ _ _ (le_n _) G) as (p & E & F).
+    exists (34 :: p). split; [rewrite E; reflexivity|]. intros x. cbn [app sws]. cbn. rewrite F. reflexivity. }
+  destruct (Z.eqb_spec c 110) as [->|C4].
+  { rewrite g_value_null in G. apply strip_prefix_app in G. exists [110; 117; 108; 108]. split; [rewrite G; reflexivity|].
+    intros x. reflexivity. }
+  destruct (Z.eqb_spec c 116) as [->|C5].
+  { rewrite g_value_true in G. apply strip_prefix_app in G. exists [116; 114; 117; 101]. split; [rewrite G; reflexivity|].
+    intros x. reflexivity. }
+  destruct (Z.eqb_spec c 102) as [->|C6].
+  { rewrite g_value_false in G. apply strip_prefix_app in G. exists [102; 97; 108; 115; 101]. split; [rewrite G; reflexivity|].
+    intros x. reflexivity. }
+  rewrite g_value_other in G by lia. apply numsplit_sws. apply g_number_split. exact G.
+Qed.
+Lemma scalar_sws f c r0 r' : (c =? 91) || (c =? 123) = false -> g_value (S f) (c :: r0) = Some r' ->
+  sws false false (c :: r0) = consumed (c :: r0) r' ++ sws false false r'.
+Proof.
+  intros C G. destruct (scalar_split f c r0 r' C G) as (p & E & F). rewrite E, consumed_app. apply F.
+Qed.
+
+Definition concat_ok (f : nat) : Prop :=
+  forall j depth index iskey ts r, g_tokens f j depth index iskey = Some (ts, r) ->
+    sws false false j = cval ts ++ sws false false r.
+Lemma sws_punct c r0 r : is_ws c = false -> (c =? 34) = false -> skip_ws r0 = c :: r ->
+  sws false false r0 = [c] ++ sws false false r.
+Proof. intros W Q J. rewrite sws_skip_ws, J. cbn [sws app]. rewrite W, Q. reflexivity. Qed.
+Lemma elems_concat f depth : concat_ok f ->
+  forall m b i acc tsall r, gt_elems f depth m b i acc = Some (tsall, r) ->
+  exists ts', tsall = acc ++ ts' /\ sws false false b = cval ts' ++ sws false false r.
+Proof.
+  intros IHv. induction m as [|m IHm]; intros b i acc tsall r G; [discriminate G|].
+  rewrite gt_elems_eq in G. destruct (g_tokens f b (depth + 1) i false) as [[ts1 r1]|] eqn:G1; [|discriminate G].
+  unfold gt_after_elem in G. destruct (skip_ws r1) as [|c r'] eqn:J1; [discriminate G|].
+  pose proof (IHv _ _ _ _ _ _ G1) as E1.
+  destruct (Z.eqb_spec c 44) as [->|C1].
+  - destruct (IHm _ _ _ _ _ G) as (ts2 & E2 & R2).
+    exists (ts1 ++ [mk_punct 44] ++ ts2). split; [rewrite E2, <- !app_assoc; reflexivity|].
+    rewrite E1, (sws_punct 44 r1 r' eq_refl eq_refl J1), (sws_skip_ws r'), R2, !cval_app, <- !app_assoc. reflexivity.
+  - destruct (Z.eqb_spec c 93) as [->|C2]; [|discriminate G]. injection G as <- <-.
+    exists (ts1 ++ [mk_punct 93]). split; [reflexivity|].
+    rewrite E1, (sws_punct 93 r1 r' eq_refl eq_refl J1), !cval_app, <- !app_assoc. reflexivity.
+Qed.
+Lemma members_concat f depth : concat_ok f ->
+  forall m b i acc tsall r, gt_members f depth m b i acc = Some (tsall, r) ->
+  exists ts', tsall = acc ++ ts' /\ sws false false b = cval ts' ++ sws false false r.
+Proof.
+  intros IHv. induction m as [|m IHm]; intros b i acc tsall r G; [discriminate G|].
+  rewrite gt_members_eq in G. destruct (g_str_tok b) as [rk|] eqn:GK; [|discriminate G].
+  unfold g_str_tok in GK. destruct b as [|c k]; [discriminate GK|].
+  destruct (Z.eqb_spec c 34) as [->|C0]; [|discriminate GK].
+  set (key := mk_scalar (consumed (34 :: k) rk) (depth + 1) i true) in *.
+  unfold gt_after_key in G. destruct (skip_ws rk) as [|c2 r2] eqn:J2; [discriminate G|].
+  destruct (Z.eqb_spec c2 58) as [->|C2]; [|discriminate G].
+  destruct (g_tokens f (skip_ws r2) (depth + 1) i false) as [[ts1 r1]|] eqn:G1; [|discriminate G].
+  unfold gt_after_member in G. destruct (skip_ws r1) as [|c3 r3] eqn:J3; [discriminate G|].
+  pose proof (IHv _ _ _ _ _ _ G1) as E1.
+  pose proof (scalar_sws 0 34 k rk eq_refl GK) as EK.
+  assert (EM : sws false false (34 :: k) = cval ([key] ++ [mk_punct 58] ++ ts1) ++ sws false false r1).
+  { rewrite EK, (sws_punct 58 rk r2 eq_refl eq_refl J2), (sws_skip_ws r2), E1, !cval_app, <- !app_assoc.
+    unfold key. rewrite cval_scalar. reflexivity. }
+  destruct (Z.eqb_spec c3 44) as [->|C3].
+  - destruct (IHm _ _ _ _ _ G) as (ts2 & E2 & R2).
+    exists (([key] ++ [mk_punct 58] ++ ts1) ++ [mk_punct 44] ++ ts2). split; [rewrite E2, <- !app_assoc; reflexivity|].
+    rewrite EM, (sws_punct 44 r1 r3 eq_refl eq_refl J3), (sws_skip_ws r3), R2.
+    rewrite (cval_app (_ ++ _ ++ _)), (cval_app [mk_punct 44]), <- !app_assoc. reflexivity.
+  - destruct (Z.eqb_spec c3 125) as [->|C4]; [|discriminate G]. injection G as <- <-.
+    exists (([key] ++ [mk_punct 58] ++ ts1) ++ [mk_punct 125]). split; [rewrite <- !app_assoc; reflexivity|].
+    rewrite EM, (sws_punct 125 r1 r3 eq_refl eq_refl J3).
+    rewrite (cval_app (_ ++ _ ++ _)), <- !app_assoc. reflexivity.
+Qed.
+Lemma concat_value : forall f, concat_ok f.
+Proof.
+  induction f as [|f IH]; intros j depth index iskey ts r G; [discriminate G|].
+  destruct j as [|c r0]; [rewrite g_tokens_nil in G; discriminate G|].
+  destruct (Z.eqb_spec c 91) as [->|C1].
+  { rewrite g_tokens_array in G. change (sws false false (91 :: r0)) with ([91] ++ sws false false r0).
+    destruct (skip_ws r0) as [|c' r'] eqn:J1; [rewrite gt_elems_nil in G; discriminate G|].
+    destruct (Z.eqb_spec c' 93) as [->|C'].
+    - injection G as <- <-. rewrite (sws_punct 93 r0 r' eq_refl eq_refl J1). reflexivity.
+    - destruct (elems_concat f depth IH _ _ _ _ _ _ G) as (ts' & E & R). subst ts.
+      rewrite cval_app, sws_skip_ws, J1, R, <- app_assoc. reflexivity. }
+  destruct (Z.eqb_spec c 123) as [->|C2].
+  { rewrite g_tokens_object in G. change (sws false false (123 :: r0)) with ([123] ++ sws false false r0).
+    destruct (skip_ws r0) as [|c' r'] eqn:J1; [rewrite gt_members_nil in G; discriminate G|].
+    destruct (Z.eqb_spec c' 125) as [->|C'].
+    - injection G as <- <-. rewrite (sws_punct 125 r0 r' eq_refl eq_refl J1). reflexivity.
+    - destruct (members_concat f depth IH _ _ _ _ _ _ G) as (ts' & E & R). subst ts.
+      rewrite cval_app, sws_skip_ws, J1, R, <- app_assoc. reflexivity. }
+  assert (C : (c =? 91) || (c =? 123) = false) by lia.
+  rewrite (g_tokens_other f c r0 _ _ _ C) in G.
+  destruct (g_value (S f) (c :: r0)) as [r'|] eqn:GV; [|discriminate G]. injection G as <- <-.
+  rewrite (scalar_sws f c r0 r' C GV), cval_scalar. reflexivity.
+Qed.
+
+Lemma tokens_concat : tokens_concat_statement.
+Proof.
+  intros b ss _ Hs. unfold spec_tokens in Hs.
+  destruct (g_tokens (S (length b)) (skip_ws b) 0 0 false) as [[ts r]|] eqn:G; [|discriminate Hs].
+  destruct (skip_ws r) as [|x l] eqn:Jr; [|discriminate Hs]. injection Hs as ->.
+  rewrite sws_skip_ws, (concat_value _ _ _ _ _ _ _ G), (sws_skip_ws r), Jr. cbn [strip_ws_outside_strings]. symmetry. apply app_nil_r.
+Qed.
